@@ -16,6 +16,7 @@ from gv.astutil import stmts_of
 from gv.astutil import unparse
 from gv.astutil import walk_body
 from gv.cfg import cfg_of
+from gv.astutil import arg_or_kw
 from gv.props.shared import unfolded
 from gv.props import describe
 from gv.props.shared import branch_conditions
@@ -195,6 +196,17 @@ def check_optimum(ctx: Ctx) -> None:
             else:
                 okv = own_record_only(s.value)
                 ctx.ob("4.1-same-record", con, okv, "constraint values/gradients must be read from the loop's own record", node=s, stmt=f"{sorted(tgt)[0]}[...] from the selected record")
+    # ... and every reported field is overwritten WHENEVER the selection changes: a store under a further condition
+    # (`if key in record:`) keeps, for the new optimum, the value recorded for an earlier candidate
+    ref = [s_ for s_ in ast.walk(lp) if isinstance(s_, ast.Assign) and f_opt in _assigned_names(s_) and cfg.under_branch(cfg.node_of(s_), sel_n, True)]
+    if ref:
+        from gv.props.shared import branch_conditions as _bc
+
+        base_tests = {(t, v) for t, v in _bc(cfg, cfg.node_of(ref[0])) if cfg.kind[t] == "test"}
+        for s_ in ast.walk(lp):
+            if isinstance(s_, ast.Assign) and _assigned_names(s_) & reported and cfg.under_branch(cfg.node_of(s_), sel_n, True):
+                extra = {(t, v) for t, v in _bc(cfg, cfg.node_of(s_)) if cfg.kind[t] == "test"} - base_tests
+                ctx.ob("4.1-same-record", con, not extra, f"`{norm_stmt(s_, 60)}` is made under a further condition ({'; '.join(norm_stmt(cfg.ast[t].test, 50) for t, _ in extra)}): when it does not hold, the field keeps what was recorded for another candidate", node=s_, stmt=f"{sorted(_assigned_names(s_) & reported)[0]} overwritten at every change of the selection")
     # writes after the loop only post-process f_opt (scalar unwrapping)
     # 4.3 flag / branches
     fn = cfg.node_of(ret_false[0])
@@ -872,7 +884,50 @@ def check_pareto(ctx: Ctx) -> None:
     ctx.ob("4.6-feasible-only", con, ok, "infeasible points must be marked non-optimal", node=(marks or [main])[0], stmt="infeasible -> False")
 
 
+def check_pareto_history(ctx: Ctx) -> None:
+    """4.7: the Pareto front reported for a multi-objective history is selected on the objectives AS RECORDED (the
+    history holds the standardised objective, to be minimised): the rows handed to the non-dominated filter are the
+    recorded values of each point, with that point's own feasibility, and the selection is applied alike to objectives
+    and designs.  A sign or scale applied before the filter selects the worst points."""
+    rel = "algos/pareto/pareto_front.py"
+    f = ctx.index.method(rel, "ParetoFront", "__get_optima")
+    con = cname(rel, "ParetoFront", "__get_optima")
+    calls_ = [c for c in walk_body(f) if isinstance(c, ast.Call) and last_attr(c) == "compute_pareto_optimal_points"]
+    ctx.need(len(calls_) == 1 and len(calls_[0].args) >= 1, "ParetoFront.__get_optima: the call of compute_pareto_optimal_points was not found")
+    objs = dotted(calls_[0].args[0])
+    feas = dotted(arg_or_kw(calls_[0], 1, "feasible_points"))
+    ctx.need(objs is not None and feas is not None, "ParetoFront.__get_optima: the histories handed to the filter are not plain locals")
+    loops = [lp for lp in stmts_of(f) if isinstance(lp, ast.For) and "database" in norm_stmt(lp.iter)]
+    ctx.need(len(loops) == 1, "ParetoFront.__get_optima: the loop over the database was not found")
+    lp = loops[0]
+    n_o = n_f = 0
+    for st in [s_ for s_ in ast.walk(lp) if isinstance(s_, ast.Assign) and isinstance(s_.targets[0], ast.Subscript)]:
+        holder = dotted(st.targets[0].value)
+        if holder not in (objs, feas):
+            continue
+        for v in unfolded(f, st, get=lambda s_: s_.value) or [st.value]:
+            core = v
+            while isinstance(core, ast.Call) and (dotted(core.func) or "").split(".")[-1] in ("array", "asarray", "atleast_1d", "float") and len(core.args) == 1:
+                core = core.args[0]
+            if holder == objs:
+                n_o += 1
+                nan = (isinstance(core, ast.Constant) and isinstance(core.value, str) and core.value.lower() == "nan") or (dotted(core) or "").split(".")[-1].lower() == "nan"
+                rec = isinstance(core, ast.Subscript) and "objective.name" in norm_stmt(core.slice)
+                ctx.ob("4.7-pareto-history", con, nan or rec, f"the objectives handed to the non-dominated filter must be the recorded ones, untouched (found `{norm_stmt(v, 80)}`): the history holds the objective to be minimised, a sign or scale applied here selects dominated points", node=st, stmt=f"{objs}[i] = the recorded objective of point i")
+            else:
+                n_f += 1
+                ok = (isinstance(core, ast.Constant) and core.value in (False, 0, 0.0)) or (isinstance(core, ast.Call) and last_attr(core) == "is_point_feasible")
+                ctx.ob("4.7-pareto-history", con, ok, f"the feasibility handed to the filter is that of the point itself (found `{norm_stmt(v, 80)}`)", node=st, stmt=f"{feas}[i] = feasibility of point i")
+    ctx.need(n_o >= 1 and n_f >= 1, "ParetoFront.__get_optima: the rows of the histories were not found")
+    rets = [r for r in stmts_of(f) if isinstance(r, ast.Return) and isinstance(r.value, ast.Tuple) and len(r.value.elts) == 2]
+    ok = len(rets) == 1 and all(isinstance(e_, ast.Subscript) for e_ in rets[0].value.elts) and len({norm_stmt(e_.slice) for e_ in rets[0].value.elts}) == 1 and dotted(rets[0].value.elts[0].value) == objs
+    alts_ = (unfolded(f, rets[0], get=lambda r_: r_.value.elts[0].slice) or []) if ok else []
+    sel_ok = ok and bool(alts_) and all(isinstance(a_, ast.Call) and last_attr(a_) == "compute_pareto_optimal_points" for a_ in alts_)
+    ctx.ob("4.7-pareto-history", con, bool(sel_ok), "objectives and designs of the front are both selected with the result of the filter", node=(rets or [f])[0], stmt="same selection for objectives and designs")
+
+
 def run(ctx: Ctx) -> None:
+    check_pareto_history(ctx)
     check_optimum(ctx)
     check_best_infeasible(ctx)
     check_feasible_points(ctx)
